@@ -275,7 +275,10 @@ def r2_dispatch(ck, prog, run):
             continue
         ck.same("R2", f.where, tag + ": refinement", "the residual quotient is floor_divide(first remainder as one double, divisor), operands in that order",
                 ok2, found=str([str(x)[:70] for x in (second[2] if second else [])]), nontrivial=True)
-        ok3 = len(fa) >= 4 and isinstance(fa[2]["factor"], Num) and sp.simplify(fa[2]["factor"].expr - (fd0 + fdx)) == 0 \
+        def plain(e_):
+            """np.add(a, b[, out=a]) of plain numbers is a + b (the Phase model keeps ufunc applications opaque)."""
+            return e_.replace(lambda t: getattr(t.func, "__name__", "") == "Ufunc_add_0" and len(t.args) == 2, lambda t: t.args[0] + t.args[1])
+        ok3 = len(fa) >= 4 and isinstance(fa[2]["factor"], Num) and sp.simplify(plain(fa[2]["factor"].expr) - (fd0 + fdx)) == 0 \
             and isinstance(fa[2]["phase1"], Num) and sp.simplify(fa[2]["phase1"].expr - c * CYCLE) == 0 \
             and isinstance(fa[3]["phase1"], Num) and fa[3]["phase1"].expr == U(part(p, "int").expr, R(3, "int") * CYCLE) \
             and isinstance(fa[3]["phase2"], Num) and fa[3]["phase2"].expr == U(part(p, "frac").expr, R(3, "frac") * CYCLE)
@@ -284,7 +287,7 @@ def r2_dispatch(ck, prog, run):
 
         def at(expr, nz):
             """The term with the undecided test `count_nonzero(residual quotient)` fixed to zero / non-zero."""
-            e_ = expr
+            e_ = plain(expr)
             for a_ in list(e_.atoms(sp.Function)):
                 if a_.func.__name__ == "CountNonzero":
                     e_ = e_.subs(a_, sp.Integer(1 if nz else 0))
